@@ -239,4 +239,8 @@ SolLaws(s)       == LET t == PrintSol(s)               \* the three solution law
 SolAlignLaw(s, text) == /\ AlignedText(s, text, s.pp)
                         /\ LET r == ReadDoc(Doc(s, text))
                            IN r.ok = 1 /\ Assignment(r.sol.vs, r.sol.cs, r.sol.pp) = Assignment(s.vs, s.cs, s.pp)
+(* rejected assignment: an assignment that raises has no effect.  before / after = the id (normalised) before the
+   attempt and after the exception was caught: the same id, the same text, still round-tripping.  An assignment of
+   an invalid value that does NOT raise is outside the statement (it is about valid ids): no obligation. *)
+RejectAtomicLaw(before, after) == SameId(after, before) /\ PrintId(after) = PrintId(before) /\ ParseLaw(after)
 =================================================================================
